@@ -1,6 +1,6 @@
 (* C03: lemmas about the table-driven gob codec model (Model/Gob.v) and the proof that the table
    condition (Model/GobCheck.v) implies the round trip. *)
-From AP.Model Require Import Prelude Vocab Bytes Layout Pred Dispatch GobTables Gob GobCheck GobNorm.
+From AP.Model Require Import Prelude Vocab Bytes Layout Pred Dispatch GobTables Gob GobCheck GobNorm GobWhole.
 From AP.Proofs Require Import NlvP ViewsP.
 
 (* ------------------------------------------------------------------ association lists *)
@@ -75,10 +75,12 @@ Proof. intros H. unfold setf. destruct (fval_is_zero v); [now apply getf_delf_ot
 
 (* ------------------------------------------------------------------ the write side *)
 Section Write.
-Variable E : gob_env.
+Variable enc : wcodec -> option pfval -> wire.
+Variable fits : wcodec -> gotype -> bool.
 Variable pfs : list (fid * pfval).
+Notation wentry_ok := (wentry_ok_gen fits).
 
-Lemma wstep_has_mono st e : snd st = true -> snd (wstep E pfs st e) = true.
+Lemma wstep_has_mono st e : snd st = true -> snd (wstep_gen enc pfs st e) = true.
 Proof.
   destruct st as [mm has]; simpl; intros ->.
   destruct e as [f key cn gf g flag pos|gf g pos| |]; simpl; try reflexivity.
@@ -87,7 +89,7 @@ Proof.
 Qed.
 
 Lemma wstep_key_mono st e key w :
-  aget key (fst st) = Some w -> exists w', aget key (fst (wstep E pfs st e)) = Some w'.
+  aget key (fst st) = Some w -> exists w', aget key (fst (wstep_gen enc pfs st e)) = Some w'.
 Proof.
   destruct st as [mm has]; simpl; intros H.
   destruct e as [f k cn gf g flag pos|gf g pos| |]; simpl; eauto.
@@ -97,11 +99,11 @@ Proof.
   - destruct (guard_eval g has (fget gf pfs)); simpl; eauto.
 Qed.
 
-Lemma fold_has_mono W : forall st, snd st = true -> snd (fold_left (wstep E pfs) W st) = true.
+Lemma fold_has_mono W : forall st, snd st = true -> snd (fold_left (wstep_gen enc pfs) W st) = true.
 Proof. induction W as [|e r IH]; simpl; intros st H; [exact H|]. apply IH. now apply wstep_has_mono. Qed.
 
 Lemma fold_key_mono W : forall st key w,
-  aget key (fst st) = Some w -> exists w', aget key (fst (fold_left (wstep E pfs) W st)) = Some w'.
+  aget key (fst st) = Some w -> exists w', aget key (fst (fold_left (wstep_gen enc pfs) W st)) = Some w'.
 Proof.
   induction W as [|e r IH]; simpl; intros st key w H; [eauto|].
   destruct (wstep_key_mono st e key w H) as [w' H']. eapply IH; eauto.
@@ -109,9 +111,9 @@ Qed.
 
 (* every binding of the final map was put there by a write statement *)
 Lemma fold_binding W : forall st key w,
-  aget key (fst (fold_left (wstep E pfs) W st)) = Some w ->
+  aget key (fst (fold_left (wstep_gen enc pfs) W st)) = Some w ->
   aget key (fst st) = Some w \/
-  exists f cn c gf g flag pos, In (GW f key cn gf g flag pos) W /\ wcodec_of cn = Some c /\ w = wenc E c (fget f pfs)
+  exists f cn c gf g flag pos, In (GW f key cn gf g flag pos) W /\ wcodec_of cn = Some c /\ w = enc c (fget f pfs)
                                /\ exists has', guard_eval g has' (fget gf pfs) = true.
 Proof.
   induction W as [|e r IH]; simpl; intros st key w H; [now left|].
@@ -138,11 +140,11 @@ Lemma fold_fires W : forall st flagged,
   fires f t flagged W = true ->
   (flagged = true -> snd st = true) ->
   exists key cn gf g flag pos w,
-    In (GW f key cn gf g flag pos) W /\ aget key (fst (fold_left (wstep E pfs) W st)) = Some w.
+    In (GW f key cn gf g flag pos) W /\ aget key (fst (fold_left (wstep_gen enc pfs) W st)) = Some w.
 Proof.
   induction W as [|e r IH]; simpl; intros st flagged Hok Hf Hfl; [discriminate|].
   apply andb_true_iff in Hok. destruct Hok as [Hok1 Hok].
-  assert (Hmono : snd st = true -> snd (wstep E pfs st e) = true) by (intros; now apply wstep_has_mono).
+  assert (Hmono : snd st = true -> snd (wstep_gen enc pfs st e) = true) by (intros; now apply wstep_has_mono).
   destruct e as [f' key cn gf g flag pos|gf g pos|on fn pos|src pos].
   - destruct (fid_beq f' f) eqn:Hff.
     + apply fid_beq_eq in Hff; subst f'. simpl in Hok1. rewrite fid_beq_refl in Hok1.
@@ -153,9 +155,9 @@ Proof.
       assert (Hwritten : guard_eval g (snd st) (fget f pfs) = true ->
                 exists key0 cn0 gf0 g0 flag0 pos0 w,
                   (GW f key cn f g flag pos = GW f key0 cn0 gf0 g0 flag0 pos0 \/ In (GW f key0 cn0 gf0 g0 flag0 pos0) r) /\
-                  aget key0 (fst (fold_left (wstep E pfs) r (wstep E pfs st (GW f key cn f g flag pos)))) = Some w).
+                  aget key0 (fst (fold_left (wstep_gen enc pfs) r (wstep_gen enc pfs st (GW f key cn f g flag pos)))) = Some w).
       { intros Hg. destruct st as [mm has]. simpl in Hg. simpl. rewrite Hg, Hc.
-        destruct (fold_key_mono r (aset key (wenc E c (fget f pfs)) mm, has || flag) key (wenc E c (fget f pfs))) as [w Hw].
+        destruct (fold_key_mono r (aset key (enc c (fget f pfs)) mm, has || flag) key (enc c (fget f pfs))) as [w Hw].
         { simpl. apply aget_aset_same. }
         exists key, cn, f, g, flag, pos, w. split; [now left|exact Hw]. }
       destruct (guard_ok g t) eqn:Hgo.
@@ -163,28 +165,28 @@ Proof.
       * simpl in Hf. destruct (is_hasdata g && flagged) eqn:Hhd.
         -- apply andb_true_iff in Hhd. destruct Hhd as [Hhd Hflg]. destruct g; try discriminate.
            apply Hwritten. simpl. now apply Hfl.
-        -- destruct (IH (wstep E pfs st (GW f key cn f g flag pos)) flagged Hok Hf) as (k0 & cn0 & gf0 & g0 & fl0 & p0 & w & Hin & Hw).
+        -- destruct (IH (wstep_gen enc pfs st (GW f key cn f g flag pos)) flagged Hok Hf) as (k0 & cn0 & gf0 & g0 & fl0 & p0 & w & Hin & Hw).
            { intros Hx. apply Hmono; auto. }
            exists k0, cn0, gf0, g0, fl0, p0, w. split; [now right|exact Hw].
-    + destruct (IH (wstep E pfs st (GW f' key cn gf g flag pos)) flagged Hok Hf) as (k0 & cn0 & gf0 & g0 & fl0 & p0 & w & Hin & Hw).
+    + destruct (IH (wstep_gen enc pfs st (GW f' key cn gf g flag pos)) flagged Hok Hf) as (k0 & cn0 & gf0 & g0 & fl0 & p0 & w & Hin & Hw).
       { intros Hx. apply Hmono; auto. }
       exists k0, cn0, gf0, g0, fl0, p0, w. split; [now right|exact Hw].
-  - destruct (IH (wstep E pfs st (GWFlag gf g pos)) (flagged || (fid_beq gf f && guard_ok g t)) Hok Hf) as (k0 & cn0 & gf0 & g0 & fl0 & p0 & w & Hin & Hw).
+  - destruct (IH (wstep_gen enc pfs st (GWFlag gf g pos)) (flagged || (fid_beq gf f && guard_ok g t)) Hok Hf) as (k0 & cn0 & gf0 & g0 & fl0 & p0 & w & Hin & Hw).
     { intros Hx. apply orb_true_iff in Hx. destruct Hx as [Hx|Hx]; [apply Hmono; auto|].
       apply andb_true_iff in Hx. destruct Hx as [Hgf Hgo]. apply fid_beq_eq in Hgf; subst gf.
       destruct st as [mm has]. simpl. rewrite (Hset g has Hgo). reflexivity. }
     exists k0, cn0, gf0, g0, fl0, p0, w. split; [now right|exact Hw].
-  - destruct (IH (wstep E pfs st (GWDeleg on fn pos)) flagged Hok Hf) as (k0 & cn0 & gf0 & g0 & fl0 & p0 & w & Hin & Hw).
+  - destruct (IH (wstep_gen enc pfs st (GWDeleg on fn pos)) flagged Hok Hf) as (k0 & cn0 & gf0 & g0 & fl0 & p0 & w & Hin & Hw).
     { intros Hx. apply Hmono; auto. }
     exists k0, cn0, gf0, g0, fl0, p0, w. split; [now right|exact Hw].
-  - destruct (IH (wstep E pfs st (GWUnrecognised src pos)) flagged Hok Hf) as (k0 & cn0 & gf0 & g0 & fl0 & p0 & w & Hin & Hw).
+  - destruct (IH (wstep_gen enc pfs st (GWUnrecognised src pos)) flagged Hok Hf) as (k0 & cn0 & gf0 & g0 & fl0 & p0 & w & Hin & Hw).
     { intros Hx. apply Hmono; auto. }
     exists k0, cn0, gf0, g0, fl0, p0, w. split; [now right|exact Hw].
 Qed.
 
 Lemma fold_flags W : forall st,
   forallb (wentry_ok f t) W = true ->
-  flags f t W = true -> snd (fold_left (wstep E pfs) W st) = true.
+  flags f t W = true -> snd (fold_left (wstep_gen enc pfs) W st) = true.
 Proof.
   induction W as [|e r IH]; simpl; intros st Hok Hf; [discriminate|].
   apply andb_true_iff in Hok. destruct Hok as [Hok1 Hok].
@@ -205,11 +207,10 @@ End Write.
 
 (* ------------------------------------------------------------------ the read side *)
 Section Read.
-Variable E : gob_env.
-Variable rec : wire -> outcome item.
+Variable dec : rcodec -> option fval -> wire -> outcome fval.
 Variable mm : wmap.
 
-Lemma fold_rstep_err R : forall st, (forall fs, st <> Ok fs) -> forall out, fold_left (rstep E rec mm) R st <> Ok out.
+Lemma fold_rstep_err R : forall st, (forall fs, st <> Ok fs) -> forall out, fold_left (rstep_gen dec mm) R st <> Ok out.
 Proof.
   induction R as [|e r IH]; simpl; intros st Hst out; [apply Hst|].
   apply IH. intros fs. destruct st; simpl; try discriminate. exfalso. eapply Hst; reflexivity.
@@ -219,7 +220,7 @@ Definition r_is (f : fid) (e : grentry) : bool := match e with GR f' _ _ _ => fi
 
 Lemma fold_read_other f R : forall fs out,
   forallb (fun e => negb (r_is f e)) R = true ->
-  fold_left (rstep E rec mm) R (Ok fs) = Ok out -> getf f out = getf f fs.
+  fold_left (rstep_gen dec mm) R (Ok fs) = Ok out -> getf f out = getf f fs.
 Proof.
   induction R as [|e r IH]; simpl; intros fs out Hno H; [now inversion H|].
   apply andb_true_iff in Hno. destruct Hno as [Hno1 Hno].
@@ -227,7 +228,7 @@ Proof.
   simpl in Hno1. apply negb_true_iff in Hno1. apply fid_beq_false in Hno1.
   destruct (aget key mm) as [raw|]; [|now apply IH].
   destruct (rcodec_of cn) as [c|]; [|now apply IH].
-  destruct (rdec E rec c (getf f' fs) raw) as [v| | |] eqn:Hd; simpl in H;
+  destruct (dec c (getf f' fs) raw) as [v| | |] eqn:Hd; simpl in H;
     try (exfalso; eapply fold_rstep_err; [|exact H]; intros; discriminate).
   rewrite (IH _ _ Hno H). now apply getf_setf_other.
 Qed.
@@ -240,10 +241,10 @@ Qed.
 (* the property [f] after unmap: what its one read statement decoded, or what it was before *)
 Lemma fold_read_one f R : forall fs out,
   length (filter (r_is f) R) = 1 ->
-  fold_left (rstep E rec mm) R (Ok fs) = Ok out ->
+  fold_left (rstep_gen dec mm) R (Ok fs) = Ok out ->
   exists key cn pos, In (GR f key cn pos) R /\
     match aget key mm, rcodec_of cn with
-    | Some raw, Some c => exists v, rdec E rec c (getf f fs) raw = Ok v /\ getf f out = if fval_is_zero v then None else Some v
+    | Some raw, Some c => exists v, dec c (getf f fs) raw = Ok v /\ getf f out = if fval_is_zero v then None else Some v
     | _, _ => getf f out = getf f fs
     end.
 Proof.
@@ -254,15 +255,15 @@ Proof.
     exists key, cn, pos. split; [now left|]. simpl in H.
     destruct (aget key mm) as [raw|]; [|now apply (fold_read_other f r)].
     destruct (rcodec_of cn) as [c|]; [|now apply (fold_read_other f r)].
-    destruct (rdec E rec c (getf f fs) raw) as [v| | |] eqn:Hd; simpl in H;
+    destruct (dec c (getf f fs) raw) as [v| | |] eqn:Hd; simpl in H;
       try (exfalso; eapply fold_rstep_err; [|exact H]; intros; discriminate).
     exists v. split; [reflexivity|]. rewrite (fold_read_other f r _ _ Hc H). apply getf_setf_same.
-  - assert (Hstep : exists fs1, rstep E rec mm (Ok fs) e = Ok fs1 /\ getf f fs1 = getf f fs).
+  - assert (Hstep : exists fs1, rstep_gen dec mm (Ok fs) e = Ok fs1 /\ getf f fs1 = getf f fs).
     { destruct e as [f' key cn pos| |]; simpl; try (now exists fs).
       simpl in Hr. apply fid_beq_false in Hr.
       destruct (aget key mm) as [raw|]; [|now exists fs].
       destruct (rcodec_of cn) as [c|]; [|now exists fs].
-      destruct (rdec E rec c (getf f' fs) raw) as [v| | |] eqn:Hd; simpl in *;
+      destruct (dec c (getf f' fs) raw) as [v| | |] eqn:Hd; simpl in *;
         try (exfalso; eapply fold_rstep_err; [|exact H]; intros; discriminate).
       exists (setf f' v fs). split; [reflexivity|now apply getf_setf_other]. }
     destruct Hstep as (fs1 & Hs1 & Hg1). simpl in Hs1. rewrite Hs1 in H.
@@ -273,12 +274,12 @@ Qed.
 (* unmap succeeds when every decoder it runs succeeds *)
 Lemma fold_read_ok R : forall fs,
   (forall f key cn pos raw c cur, In (GR f key cn pos) R -> aget key mm = Some raw -> rcodec_of cn = Some c ->
-                                  exists v, rdec E rec c cur raw = Ok v) ->
-  exists out, fold_left (rstep E rec mm) R (Ok fs) = Ok out.
+                                  exists v, dec c cur raw = Ok v) ->
+  exists out, fold_left (rstep_gen dec mm) R (Ok fs) = Ok out.
 Proof.
   induction R as [|e r IH]; simpl; intros fs Hall; [eauto|].
   assert (Hr : forall f key cn pos raw c cur, In (GR f key cn pos) r -> aget key mm = Some raw -> rcodec_of cn = Some c ->
-                 exists v, rdec E rec c cur raw = Ok v) by (intros; eapply Hall; eauto).
+                 exists v, dec c cur raw = Ok v) by (intros; eapply Hall; eauto).
   destruct e as [f key cn pos| |]; simpl; try (now apply IH).
   destruct (aget key mm) as [raw|] eqn:Ha; [|now apply IH].
   destruct (rcodec_of cn) as [c|] eqn:Hc; [|now apply IH].
@@ -287,15 +288,39 @@ Qed.
 
 End Read.
 
+(* success of a fold of read statements does not depend on the value it starts from, when the success of
+   each decoder does not depend on the value it overwrites *)
+Section ReadIndep.
+Variable dec : rcodec -> option fval -> wire -> outcome fval.
+Variable mm : wmap.
+Hypothesis Hdec : forall c cur cur' w v, dec c cur w = Ok v -> exists v', dec c cur' w = Ok v'.
+
+Lemma fold_rstep_indep R : forall fs1 fs2 out,
+  fold_left (rstep_gen dec mm) R (Ok fs1) = Ok out -> exists out', fold_left (rstep_gen dec mm) R (Ok fs2) = Ok out'.
+Proof.
+  induction R as [|e r IH]; simpl; intros fs1 fs2 out H; [eauto|].
+  destruct e as [f key cn pos| |]; simpl in *; try (eapply IH; exact H).
+  destruct (aget key mm) as [raw|]; [|eapply IH; exact H].
+  destruct (rcodec_of cn) as [c|]; [|eapply IH; exact H].
+  destruct (dec c (getf f fs1) raw) as [v| | |] eqn:Hd; simpl in H;
+    try (exfalso; eapply fold_rstep_err; [|exact H]; intros; discriminate).
+  destruct (Hdec _ _ (getf f fs2) _ _ Hd) as [v' Hv']. rewrite Hv'. simpl. eapply IH; exact H.
+Qed.
+End ReadIndep.
 
 (* ------------------------------------------------------------------ codec pairs *)
 Lemma wbg_wraw s : wire_bytes_or_garbage (wraw s) = s.
 Proof. destruct s; reflexivity. Qed.
 Lemma wire_bytes_wraw s : wire_bytes (wraw s) = Some s.
 Proof. destruct s; reflexivity. Qed.
-Section Codec.
+
+Definition cur_ok (cur : option fval) : Prop := cur = None \/ cur = Some (FNlv (Some [])).
+Definition items_of (v : fval) : list item :=
+  match v with FItem i => [i] | FItems (Some l) => l | FEndpoints (Some e) => map snd e | _ => [] end.
+
+(* one level down: the codecs that do not open a nested property map *)
+Section Codec0.
 Variable E : gob_env.
-Hypothesis Hep : ge_endpoints_codec E = true.
 Variable rec : wire -> outcome item.
 Notation N := (norm_item (ge_layout E) (ge_layout_endpoints E)).
 Notation NV := (norm_fval (ge_layout E) (ge_layout_endpoints E)).
@@ -308,106 +333,106 @@ Proof.
   induction 1 as [|x r [x' [Hx Hn]] _ [r' [Hr Hm]]]; simpl; [now exists []|].
   exists (x' :: r'). rewrite Hx. simpl. rewrite Hr. simpl. split; [reflexivity|now rewrite Hn, Hm].
 Qed.
-Definition cur_ok (cur : option fval) : Prop := cur = None \/ cur = Some (FNlv (Some [])).
-Definition items_of (v : fval) : list item :=
-  match v with FItem i => [i] | FItems (Some l) => l | FEndpoints (Some e) => map snd e | _ => [] end.
 
-Lemma wenc_item i : wenc E CwItem (Some (pre_fval E (FItem i))) = genc E i.
+Lemma wenc0_item i : wenc0 CwItem (Some (pre_fval E (FItem i))) = genc E i.
 Proof. destruct i; reflexivity. Qed.
-Lemma wenc_item_or_link i : wenc E CwItemOrLink (Some (pre_fval E (FItem i))) = genc E i.
+Lemma wenc0_item_or_link i : wenc0 CwItemOrLink (Some (pre_fval E (FItem i))) = genc E i.
 Proof. destruct i; reflexivity. Qed.
-
-Lemma wenc_items_as_item c l : c = CwItem \/ c = CwItemOrLink \/ c = CwItems ->
-  wenc E c (Some (pre_fval E (FItems (Some l)))) = WList (map (genc E) l).
+Lemma wenc0_items_as_item c l : c = CwItem \/ c = CwItemOrLink \/ c = CwItems ->
+  wenc0 c (Some (pre_fval E (FItems (Some l)))) = WList (map (genc E) l).
 Proof. intros [-> | [-> | ->]]; reflexivity. Qed.
 Lemma dec_items_list l : dec_items rec (WList l) = omapM rec l.
 Proof. reflexivity. Qed.
-Lemma rdec_items cur w : rdec E rec CrItems cur w = obind (dec_items rec w) (fun l => Ok (FItems (Some l))).
+Lemma rdec0_items cur w : rdec0 rec CrItems cur w = obind (dec_items rec w) (fun l => Ok (FItems (Some l))).
 Proof. reflexivity. Qed.
 
-Lemma pubkey_rt id owner pem cur :
-  cur_ok cur -> match owner with [] => true | _ => negb (iri_nilish owner) end = true ->
-  rdec_pubkey cur (wenc_pubkey id owner pem) = Ok (FPubKey id owner pem).
-Proof.
-  intros Hcur Ho. unfold wenc_pubkey. destruct owner as [|ob oo].
-  - destruct Hcur as [-> | ->]; destruct id; destruct pem; reflexivity.
-  - apply negb_true_iff in Ho. rewrite Ho. destruct Hcur as [-> | ->]; destruct id; destruct pem; reflexivity.
-Qed.
-
-Lemma codec_pair_sound t cw cr (ov : option fval) cur :
-  pair_ok true t cw cr = true ->
-  t <> TEndpoints ->
+Lemma codec_pair_sound0 t cw cr (ov : option fval) cur :
+  pair_ok0 t cw cr = true ->
   (forall v, ov = Some v -> shape_ok t v = true) ->
   (forall v i, ov = Some v -> In i (items_of v) -> rec_ok i) ->
   rec_ok INil ->
   (cw <> CwIri -> cw <> CwType -> cw <> CwRawBytes -> cur_ok cur) ->
-  (t = TItems -> cw <> CwItems -> exists l, ov = Some (FItems (Some l))) ->
-  exists v', rdec E rec cr cur (wenc E cw (option_map (pre_fval E) ov)) = Ok v' /\
+  (t = TItems -> is_item_codec cw = true -> exists l, ov = Some (FItems (Some l))) ->
+  (is_item_codec cw = true -> forall s, ov = Some (FStr s) -> s = [] \/ iri_nilish s = false) ->
+  exists v', rdec0 rec cr cur (wenc0 cw (option_map (pre_fval E) ov)) = Ok v' /\
              NV v' = match ov with Some v => NV v | None => None end.
 Proof.
-  intros Hp Hne Hshape Hrec Hnil Hcur Hitems.
-  destruct t; try congruence; destruct cw; try discriminate; destruct cr; try discriminate;
+  intros Hp Hshape Hrec Hnil Hcur Hitems Hstr.
+  destruct t; destruct cw; try discriminate; destruct cr; try discriminate;
     (destruct ov as [v|]; [specialize (Hshape v eq_refl); destruct v; try discriminate|]);
     try (specialize (Hcur ltac:(discriminate) ltac:(discriminate) ltac:(discriminate))).
+  (* an IRI-typed string written by gobEncodeItem *)
+  all: try (match goal with |- context [wenc0 ?c (option_map _ (Some (FStr ?s)))] =>
+              match c with CwItem => idtac | CwItemOrLink => idtac end;
+              destruct (Hstr eq_refl s eq_refl) as [-> | Hns];
+              [cbn; eexists; split; reflexivity
+              |cbn [option_map pre_fval wenc0 rdec0]; rewrite Hns, wbg_wraw; eexists; split; reflexivity] end).
+  all: try (match goal with |- context [wenc0 ?c (option_map _ None)] =>
+              match c with CwItem => idtac | CwItemOrLink => idtac end;
+              match goal with |- context [rdec0 _ ?r] => match r with CrIri => idtac | CrType => idtac | CrString => idtac end end;
+              cbn; eexists; split; reflexivity end).
   (* strings written raw *)
-  all: try (match goal with |- context [rdec _ _ ?c] =>
+  all: try (match goal with |- context [rdec0 _ ?c] =>
               match c with CrIri => idtac | CrType => idtac | CrString => idtac end end;
             cbn; try rewrite wbg_wraw; eexists; split; reflexivity).
   (* strings written as gob byte strings *)
-  all: try (match goal with |- context [rdec _ _ ?c] => match c with CrMime => idtac | CrLangRef => idtac end end;
+  all: try (match goal with |- context [rdec0 _ ?c] => match c with CrMime => idtac | CrLangRef => idtac end end;
             destruct Hcur as [-> | ->]; try (destruct s); cbn; eexists; split; reflexivity).
   (* language values *)
-  all: try (match goal with |- context [rdec _ _ ?c] => match c with CrNlvMethod => idtac | CrNlvFn => idtac end end;
+  all: try (match goal with |- context [rdec0 _ ?c] => match c with CrNlvMethod => idtac | CrNlvFn => idtac end end;
             destruct Hcur as [-> | ->]; try (destruct l as [[|x r]|]); cbn; eexists; split; reflexivity).
   (* numbers, booleans, instants *)
-  all: try (match goal with |- context [rdec _ _ ?c] =>
+  all: try (match goal with |- context [rdec0 _ ?c] =>
               match c with CrTime => idtac | CrDuration => idtac | CrInt64 => idtac | CrUint => idtac | CrFloat => idtac | CrBool => idtac end end;
             cbn; eexists; split; reflexivity).
   (* item, item list *)
   - destruct (Hrec _ i eq_refl (or_introl eq_refl)) as [i' [Hi Hn]]. exists (FItem i'). split.
-    + cbn [option_map]. rewrite ?wenc_item, ?wenc_item_or_link. unfold rdec. now rewrite Hi.
+    + cbn [option_map]. rewrite ?wenc0_item, ?wenc0_item_or_link. unfold rdec0. now rewrite Hi.
     + change (NV (FItem i')) with (match N i' with INil => None | x => Some (FItem x) end). now rewrite Hn.
   - destruct Hnil as [i' [Hi Hn]]. cbn in Hi. exists (FItem i'). split; [cbn; now rewrite Hi|].
     change (NV (FItem i')) with (match N i' with INil => None | x => Some (FItem x) end). now rewrite Hn.
   - destruct (Hrec _ i eq_refl (or_introl eq_refl)) as [i' [Hi Hn]]. exists (FItem i'). split.
-    + cbn [option_map]. rewrite ?wenc_item, ?wenc_item_or_link. unfold rdec. now rewrite Hi.
+    + cbn [option_map]. rewrite ?wenc0_item, ?wenc0_item_or_link. unfold rdec0. now rewrite Hi.
     + change (NV (FItem i')) with (match N i' with INil => None | x => Some (FItem x) end). now rewrite Hn.
   - destruct Hnil as [i' [Hi Hn]]. cbn in Hi. exists (FItem i'). split; [cbn; now rewrite Hi|].
     change (NV (FItem i')) with (match N i' with INil => None | x => Some (FItem x) end). now rewrite Hn.
-  - destruct (Hitems eq_refl) as [l0 Hl0]; [discriminate|]. injection Hl0 as ->.
+  - destruct (Hitems eq_refl eq_refl) as [l0 Hl0]. injection Hl0 as ->.
     destruct (omapM_rec l0) as [l' [Hl Hm]].
     { apply Forall_forall. intros x Hx. eapply Hrec; [reflexivity|exact Hx]. }
-    exists (FItems (Some l')). split; [cbn [option_map]; rewrite wenc_items_as_item by tauto; rewrite rdec_items, dec_items_list, Hl; reflexivity|].
+    exists (FItems (Some l')). split; [cbn [option_map]; rewrite wenc0_items_as_item by tauto; rewrite rdec0_items, dec_items_list, Hl; reflexivity|].
     rewrite !norm_items_val. destruct l0, l'; try discriminate Hm; [reflexivity|now rewrite Hm].
-  - destruct (Hitems eq_refl) as [l0 Hl0]; [discriminate|discriminate].
+  - destruct (Hitems eq_refl eq_refl) as [l0 Hl0]; discriminate.
   - destruct l as [l0|].
     + destruct (omapM_rec l0) as [l' [Hl Hm]].
       { apply Forall_forall. intros x Hx. eapply Hrec; [reflexivity|exact Hx]. }
-      exists (FItems (Some l')). split; [cbn [option_map]; rewrite wenc_items_as_item by tauto; rewrite rdec_items, dec_items_list, Hl; reflexivity|].
+      exists (FItems (Some l')). split; [cbn [option_map]; rewrite wenc0_items_as_item by tauto; rewrite rdec0_items, dec_items_list, Hl; reflexivity|].
       rewrite !norm_items_val. destruct l0, l'; try discriminate Hm; [reflexivity|now rewrite Hm].
     + exists (FItems (Some [])). split; reflexivity.
   - exists (FItems (Some [])). split; reflexivity.
-  - destruct (Hitems eq_refl) as [l0 Hl0]; [discriminate|]. injection Hl0 as ->.
+  - destruct (Hitems eq_refl eq_refl) as [l0 Hl0]. injection Hl0 as ->.
     destruct (omapM_rec l0) as [l' [Hl Hm]].
     { apply Forall_forall. intros x Hx. eapply Hrec; [reflexivity|exact Hx]. }
-    exists (FItems (Some l')). split; [cbn [option_map]; rewrite wenc_items_as_item by tauto; rewrite rdec_items, dec_items_list, Hl; reflexivity|].
+    exists (FItems (Some l')). split; [cbn [option_map]; rewrite wenc0_items_as_item by tauto; rewrite rdec0_items, dec_items_list, Hl; reflexivity|].
     rewrite !norm_items_val. destruct l0, l'; try discriminate Hm; [reflexivity|now rewrite Hm].
-  - destruct (Hitems eq_refl) as [l0 Hl0]; [discriminate|discriminate].
-  (* source *)
-  - destruct Hcur as [-> | ->]; destruct mt; destruct c as [[|x r]|]; cbn; eexists; split; reflexivity.
-  - destruct Hcur as [-> | ->]; cbn; eexists; split; reflexivity.
-  (* public key *)
-  - cbn in Hshape. exists (FPubKey id owner pem). split; [|reflexivity].
-    cbn [option_map pre_fval wenc rdec]. now apply pubkey_rt.
-  - destruct Hcur as [-> | ->]; cbn; eexists; split; reflexivity.
+  - destruct (Hitems eq_refl eq_refl) as [l0 Hl0]; discriminate.
 Qed.
-End Codec.
+
+(* whether a decoder of an admitted pair succeeds does not depend on the value it overwrites *)
+Lemma rdec0_indep c cur cur' w v :
+  rdec0 rec c cur w = Ok v -> exists v', rdec0 rec c cur' w = Ok v'.
+Proof.
+  intros H. destruct c; cbn in *; eauto; try discriminate.
+  all: try (destruct w; cbn in *; try discriminate; eauto; fail).
+  all: try (unfold rdec_mime in *; destruct w; cbn in *; eauto; try discriminate;
+            match goal with |- context [gd_bytes ?x] => destruct (gd_bytes x); cbn in *; try discriminate; eauto end; fail).
+  all: try (unfold rdec_nlv_method in *; destruct w; cbn in *; eauto; try discriminate;
+            match goal with |- context [gd_kvs ?x] => destruct (gd_kvs x); cbn in *; try discriminate; eauto end; fail).
+Qed.
+End Codec0.
 
 (* ------------------------------------------------------------------ set values and guards *)
 Section Fields.
 Variable E : gob_env.
-Hypothesis Hep : ge_endpoints_codec E = true.
-Variable rec : wire -> outcome item.
 Notation N := (norm_item (ge_layout E) (ge_layout_endpoints E)).
 Notation NV := (norm_fval (ge_layout E) (ge_layout_endpoints E)).
 Notation ON := (onorm (ge_layout E) (ge_layout_endpoints E)).
@@ -492,73 +517,120 @@ Proof.
 Qed.
 End Fields.
 
-(* ------------------------------------------------------------------ from the table condition to fields *)
-Section Kind.
-Variable E : gob_env.
-Variable k : kind.
-Hypothesis Hk : kind_ok E k = true.
-Notation NV := (norm_fval (ge_layout E) (ge_layout_endpoints E)).
-Notation W := (wtable E k).
-Notation R := (rtable_method E k).
 
-Lemma kind_ok_parts :
-  w_keys_ok W = true /\ r_keys_ok W R = true /\
-  forallb (w_recognised E k) W = true /\ forallb (r_recognised E k) R = true /\
-  forall d, In d (ge_layout E k) -> field_ok E W R d = true.
+(* ------------------------------------------------------------------ from the table condition to fields *)
+(* Generic in the level: [enc] / [dec] are the encoder and decoder calls of the level, [pok] the pairs
+   the table condition of the level admits, [Hpair] their soundness.  Instantiated one level down for
+   the leaf structs (wenc0 / rdec0 / pair_ok0) and then for the 14 struct kinds (wenc / rdec / pair_ok). *)
+Section Struct.
+Variable E : gob_env.
+Variable rec : wire -> outcome item.
+Variable enc : wcodec -> option pfval -> wire.
+Variable dec : rcodec -> option fval -> wire -> outcome fval.
+Variable fits : wcodec -> gotype -> bool.
+Variable pok : gotype -> wcodec -> rcodec -> bool.
+Notation NV := (norm_fval (ge_layout E) (ge_layout_endpoints E)).
+Notation ON := (onorm (ge_layout E) (ge_layout_endpoints E)).
+
+Hypothesis Hpair : forall t cw cr ov cur,
+  pok t cw cr = true ->
+  (forall v, ov = Some v -> shape_ok t v = true) ->
+  (forall v i, ov = Some v -> In i (items_of v) -> rec_ok E rec i) ->
+  rec_ok E rec INil ->
+  (cw <> CwIri -> cw <> CwType -> cw <> CwRawBytes -> cur_ok cur) ->
+  (t = TItems -> is_item_codec cw = true -> exists l, ov = Some (FItems (Some l))) ->
+  (is_item_codec cw = true -> forall s, ov = Some (FStr s) -> s = [] \/ iri_nilish s = false) ->
+  exists v', dec cr cur (enc cw (option_map (pre_fval E) ov)) = Ok v' /\
+             NV v' = match ov with Some v => NV v | None => None end.
+Hypothesis Hindep : forall t cw cr, pok t cw cr = true ->
+  forall cur cur' w v, dec cr cur w = Ok v -> exists v', dec cr cur' w = Ok v'.
+
+Variable L : list fdecl.
+Variable W : list gwentry.
+Variable R : list grentry.
+Hypothesis Hok : struct_ok fits pok L W R = true.
+
+Lemma struct_parts :
+  nodup_fids (map fd_fid L) = true /\ forallb (w_recognised_in L) W = true /\ forallb (r_recognised_in L) R = true /\
+  w_keys_ok W = true /\ r_keys_ok W R = true /\ forall d, In d L -> field_ok_gen fits pok W R d = true.
 Proof.
-  unfold kind_ok, kind_check in Hk.
-  repeat match type of Hk with
-         | context [if negb ?c then _ else _] => destruct c eqn:?; simpl in Hk; try discriminate
-         end.
-  repeat split; auto.
-  intros d Hd. unfold first_bad_field in Hk.
-  destruct (find (fun d0 => negb (field_ok E W R d0)) (ge_layout E k)) as [d0|] eqn:Hf.
-  - apply find_some in Hf. destruct Hf as [_ Hf]. unfold field_ok in Hf.
-    destruct (field_check E W R d0); [discriminate|discriminate].
-  - apply (find_none _ _ Hf) in Hd. now apply negb_false_iff in Hd.
+  pose proof Hok as H0. unfold struct_ok in H0. repeat (apply andb_true_iff in H0; destruct H0 as [H0 ?]).
+  repeat split; auto. intros d Hd. match goal with H : forallb (field_ok_gen _ _ _ _) L = true |- _ => rewrite forallb_forall in H; now apply H end.
 Qed.
+
+Lemma field_parts d : In d L ->
+  forallb (wentry_ok_gen fits (fd_fid d) (fd_type d)) W = true /\ fires (fd_fid d) (fd_type d) false W = true /\
+  flags (fd_fid d) (fd_type d) W = true /\ length (filter (r_is (fd_fid d)) R) = 1 /\
+  cross_ok_gen pok (fd_fid d) (fd_type d) W R = true.
+Proof.
+  intros Hd. destruct struct_parts as (_ & _ & _ & _ & _ & Hf). specialize (Hf d Hd).
+  unfold field_ok_gen, field_check_gen in Hf.
+  repeat match type of Hf with
+         | context [if ?c then FieldBad _ else _] => destruct c eqn:?; simpl in Hf; try discriminate
+         end.
+  repeat match goal with H : negb _ = false |- _ => apply negb_false_iff in H end.
+  repeat split; auto.
+  match goal with H : Nat.eqb (count_reads _ R) 1 = true |- _ => apply Nat.eqb_eq in H; exact H end.
+Qed.
+
+Lemma in_fields_In f : in_fields L f = true -> exists d, In d L /\ fd_fid d = f.
+Proof.
+  unfold in_fields. rewrite existsb_exists. intros [d [Hd Hf]]. apply fid_beq_eq in Hf. eauto.
+Qed.
+
+Variable fs : list (fid * fval).
+
+(* what is asked of the value of one property: it has the shape of the Go type of the field, the items
+   nested in it make the round trip, and - where a string is passed to gobEncodeItem - it is not the nil IRI *)
+Definition fhyps (d : fdecl) : Prop :=
+  (forall v, getf (fd_fid d) fs = Some v -> shape_ok (fd_type d) v = true) /\
+  (forall v i, getf (fd_fid d) fs = Some v -> In i (items_of v) -> rec_ok E rec i) /\
+  (forall key cn gf g fl pos cw s,
+     In (GW (fd_fid d) key cn gf g fl pos) W -> wcodec_of cn = Some cw -> is_item_codec cw = true ->
+     getf (fd_fid d) fs = Some (FStr s) -> s = [] \/ iri_nilish s = false).
 
 (* a property whose normal form is not empty is written under its key, with a codec fitting its type,
    and the struct is not written as "no data" *)
-Lemma set_field_written fs d v :
-  In d (ge_layout E k) -> getf (fd_fid d) fs = Some v -> shape_ok (fd_type d) v = true -> NV v <> None ->
-  snd (gmap E W (pre_fields E fs)) = true /\
+Lemma set_field_written_gen d v :
+  In d L -> getf (fd_fid d) fs = Some v -> shape_ok (fd_type d) v = true -> NV v <> None ->
+  snd (gmap_gen enc W (pre_fields E fs)) = true /\
   exists key cn c gf g flag pos,
-    In (GW (fd_fid d) key cn gf g flag pos) W /\ wcodec_of cn = Some c /\ wcodec_fits c (fd_type d) = true /\
-    aget key (fst (gmap E W (pre_fields E fs))) = Some (wenc E c (Some (pre_fval E v))).
+    In (GW (fd_fid d) key cn gf g flag pos) W /\ wcodec_of cn = Some c /\ fits c (fd_type d) = true /\
+    aget key (fst (gmap_gen enc W (pre_fields E fs))) = Some (enc c (Some (pre_fval E v))).
 Proof.
-  intros Hd Hget Hshape Hn.
-  destruct kind_ok_parts as (Hwk & _ & _ & _ & Hfields).
-  specialize (Hfields d Hd). unfold field_ok, field_check in Hfields.
-  repeat match type of Hfields with
-         | context [if ?c then FieldBad _ else _] => destruct c eqn:?; simpl in Hfields; try discriminate
-         end.
-  repeat match goal with H : negb _ = false |- _ => apply negb_false_iff in H end.
+  intros Hd Hget Hsh Hn.
+  destruct struct_parts as (_ & _ & _ & Hwk & _ & _).
+  destruct (field_parts d Hd) as (Hwok & Hfr & Hfl & _ & _).
   assert (Hset : forall g has, guard_ok g (fd_type d) = true -> guard_eval g has (fget (fd_fid d) (pre_fields E fs)) = true).
-  { intros g has Hg. rewrite fget_pre, Hget. simpl. now apply (set_guard E (fd_type d)). }
+  { intros g has Hg. rewrite fget_pre, Hget. simpl. apply (set_guard E (fd_type d)); auto. }
   split.
-  - unfold gmap. apply (fold_flags E (pre_fields E fs) (fd_fid d) (fd_type d) Hset W ([], false)); assumption.
-  - unfold gmap.
-    assert (Hwok : forallb (wentry_ok (fd_fid d) (fd_type d)) W = true) by assumption.
-    assert (Hfr : fires (fd_fid d) (fd_type d) false W = true) by assumption.
-    destruct (fold_fires E (pre_fields E fs) (fd_fid d) (fd_type d) Hset W ([], false) false Hwok Hfr
+  - unfold gmap_gen. apply (fold_flags enc fits (pre_fields E fs) (fd_fid d) (fd_type d) Hset W ([], false)); assumption.
+  - unfold gmap_gen.
+    destruct (fold_fires enc fits (pre_fields E fs) (fd_fid d) (fd_type d) Hset W ([], false) false Hwok Hfr
                 (fun H => False_ind _ (diff_false_true H))) as (key & cn & gf & g & flag & pos & w & Hin & Hw).
-    destruct (fold_binding E (pre_fields E fs) W ([], false) key w Hw) as [Hb|Hb]; [discriminate|].
+    destruct (fold_binding enc (pre_fields E fs) W ([], false) key w Hw) as [Hb|Hb]; [discriminate|].
     destruct Hb as (f' & cn' & c' & gf' & g' & flag' & pos' & Hin' & Hc' & Hweq & _).
     assert (f' = fd_fid d) as ->.
     { unfold w_keys_ok in Hwk. rewrite forallb_forall in Hwk. specialize (Hwk _ Hin'). rewrite forallb_forall in Hwk.
       specialize (Hwk _ Hin). simpl in Hwk. rewrite bytes_eqb_refl in Hwk. now apply fid_beq_eq in Hwk. }
     exists key, cn', c', gf', g', flag', pos'. repeat split; auto.
-    + match goal with H : forallb (wentry_ok (fd_fid d) (fd_type d)) W = true |- _ => rewrite forallb_forall in H; specialize (H _ Hin') end.
-      simpl in *. rewrite fid_beq_refl in *.
-      match goal with H : _ && _ && _ = true |- _ => apply andb_true_iff in H; destruct H as [H _]; apply andb_true_iff in H; destruct H as [_ H] end.
-      rewrite Hc' in *. match goal with H : _ && _ = true |- _ => apply andb_true_iff in H; destruct H as [H _]; exact H end.
+    + rewrite forallb_forall in Hwok. specialize (Hwok _ Hin'). simpl in Hwok. rewrite fid_beq_refl in Hwok.
+      apply andb_true_iff in Hwok. destruct Hwok as [Hwok _]. apply andb_true_iff in Hwok. destruct Hwok as [_ Hwok].
+      rewrite Hc' in Hwok. apply andb_true_iff in Hwok. now destruct Hwok.
     + rewrite Hw, Hweq, fget_pre, Hget. reflexivity.
 Qed.
 
-Notation ON := (onorm (ge_layout E) (ge_layout_endpoints E)).
+(* no statement set hasData: the property is unset *)
+Lemma nodata_unset1 d :
+  In d L -> (forall v, getf (fd_fid d) fs = Some v -> shape_ok (fd_type d) v = true) ->
+  snd (gmap_gen enc W (pre_fields E fs)) = false -> ON fs (fd_fid d) = None.
+Proof.
+  intros Hd Hsh Hno. unfold onorm. destruct (getf (fd_fid d) fs) as [v|] eqn:Hget; [|reflexivity].
+  destruct (NV v) as [nv|] eqn:Hnv; [|reflexivity]. exfalso.
+  destruct (set_field_written_gen d v Hd Hget (Hsh v eq_refl)) as [Hs _]; congruence.
+Qed.
 
-Lemma items_guard_present g has f fs :
+Lemma items_guard_present g has f :
   (g = GNeNil \/ g = GLenGt0) ->
   (forall v, getf f fs = Some v -> shape_ok TItems v = true) ->
   guard_eval g has (option_map (pre_fval E) (getf f fs)) = true ->
@@ -569,69 +641,128 @@ Proof.
   destruct l as [l|]; [now exists l|]. destruct Hg as [-> | ->]; discriminate.
 Qed.
 
-(* T.GobEncode then T.GobDecode into a zero value: every property other than Endpoints comes back with
-   the same normal form, provided the items nested in it do ([rec_ok]: the induction hypothesis of the
-   item-level statement) *)
-Lemma field_rt rec fs d out :
-  ge_endpoints_codec E = true ->
-  In d (ge_layout E k) -> fd_type d <> TEndpoints ->
-  (forall v, getf (fd_fid d) fs = Some v -> shape_ok (fd_type d) v = true) ->
-  (forall v i, getf (fd_fid d) fs = Some v -> In i (items_of v) -> rec_ok E rec i) ->
-  rec_ok E rec INil ->
-  gunmap E rec R (fst (gmap E W (pre_fields E fs))) [] = Ok out ->
-  ON out (fd_fid d) = ON fs (fd_fid d).
+Hypothesis Hnil : rec_ok E rec INil.
+
+Notation mm := (fst (gmap_gen enc W (pre_fields E fs))).
+
+(* what a read statement finds under its key was written for the same property by an encoder its decoder
+   inverts: the decoder succeeds and gives the property back up to the normal form *)
+Lemma read_decodes d key cn pos raw cr cur :
+  In d L -> fhyps d ->
+  In (GR (fd_fid d) key cn pos) R -> aget key mm = Some raw -> rcodec_of cn = Some cr ->
+  (cur_ok cur \/ forall key' cn' gf g fl pos', In (GW (fd_fid d) key' cn' gf g fl pos') W -> raw_codec cn' = true) ->
+  exists t cw v', pok t cw cr = true /\ dec cr cur raw = Ok v' /\ NV v' = ON fs (fd_fid d).
 Proof.
-  intros Hep Hd Hnep Hshape Hrec Hnil Hun.
-  destruct kind_ok_parts as (Hwk & Hrk & _ & _ & Hfields).
-  pose proof (Hfields d Hd) as Hf. unfold field_ok, field_check in Hf.
-  repeat match type of Hf with
-         | context [if ?c then FieldBad _ else _] => destruct c eqn:?; simpl in Hf; try discriminate
-         end.
-  repeat match goal with H : negb _ = false |- _ => apply negb_false_iff in H end.
-  set (f := fd_fid d) in *. set (t := fd_type d) in *.
-  assert (Hcount : length (filter (r_is f) R) = 1).
-  { match goal with H : Nat.eqb (count_reads f R) 1 = true |- _ => apply Nat.eqb_eq in H; exact H end. }
-  assert (Hcross : cross_ok E f t W R = true) by assumption.
-  unfold gunmap in Hun.
-  destruct (fold_read_one E rec _ f R [] out Hcount Hun) as (key & cn & pos & Hin & Hm).
-  unfold cross_ok in Hcross. rewrite forallb_forall in Hcross. pose proof (Hcross _ Hin) as Hc. simpl in Hc.
+  intros Hd (Hshape & Hrec & Hstr) Hin Hraw Hcr Hcur.
+  destruct struct_parts as (_ & _ & _ & _ & Hrk & _).
+  destruct (field_parts d Hd) as (Hwok & _ & _ & _ & Hcross).
+  destruct (fold_binding enc (pre_fields E fs) W ([], false) key raw Hraw) as [Hb|Hb]; [discriminate|].
+  destruct Hb as (f' & cn' & c' & gf' & g' & flag' & pos' & Hin' & Hc' & Hweq & has' & Hg').
+  assert (f' = fd_fid d) as ->.
+  { unfold r_keys_ok in Hrk. apply andb_true_iff in Hrk. destruct Hrk as [_ Hrk]. rewrite forallb_forall in Hrk.
+    specialize (Hrk _ Hin). rewrite forallb_forall in Hrk. specialize (Hrk _ Hin'). simpl in Hrk.
+    rewrite bytes_eqb_refl in Hrk. apply fid_beq_eq in Hrk. congruence. }
+  unfold cross_ok_gen in Hcross. rewrite forallb_forall in Hcross. pose proof (Hcross _ Hin) as Hc. simpl in Hc.
+  rewrite fid_beq_refl, Hcr in Hc. rewrite forallb_forall in Hc.
+  pose proof (Hc _ Hin') as Hp. simpl in Hp. rewrite fid_beq_refl, Hc' in Hp.
+  apply andb_true_iff in Hp. destruct Hp as [_ Hp].
+  rewrite forallb_forall in Hwok. pose proof (Hwok _ Hin') as Hwe. simpl in Hwe. rewrite fid_beq_refl, Hc' in Hwe.
+  apply andb_true_iff in Hwe. destruct Hwe as [Hwe _]. apply andb_true_iff in Hwe. destruct Hwe as [Hgf Hwe].
+  apply fid_beq_eq in Hgf. subst gf'. apply andb_true_iff in Hwe. destruct Hwe as [_ Hcg].
+  destruct (Hpair (fd_type d) c' cr (getf (fd_fid d) fs) cur Hp) as (v' & Hv' & Hn').
+  - exact Hshape.
+  - exact Hrec.
+  - exact Hnil.
+  - intros H1 H2 H3. destruct Hcur as [Hcur|Hcur]; [exact Hcur|]. exfalso.
+    specialize (Hcur _ _ _ _ _ _ Hin'). unfold raw_codec in Hcur. rewrite Hc' in Hcur. destruct c'; congruence.
+  - intros Ht Hci. rewrite fget_pre in Hg'. rewrite Ht in *.
+    eapply items_guard_present; [| |exact Hg'].
+    * unfold codec_guard_ok in Hcg. destruct c'; try discriminate Hci; destruct g'; try discriminate; auto.
+    * exact Hshape.
+  - intros Hic s Hs. eapply Hstr; eauto.
+  - exists (fd_type d), c', v'. split; [exact Hp|].
+    split; [rewrite Hweq, fget_pre; exact Hv'|unfold onorm; exact Hn'].
+Qed.
+
+Lemma cur_ok_norm cur : cur_ok cur -> match cur with Some v => NV v | None => None end = None.
+Proof. intros [-> | ->]; reflexivity. Qed.
+
+Variable init : list (fid * fval).
+
+(* the value a field has before it is read does not disturb its decoder: it is unset, or an empty language
+   list, or it is the very string that is written raw *)
+Definition ihyps (d : fdecl) : Prop :=
+  cur_ok (getf (fd_fid d) init) \/
+  (getf (fd_fid d) init = getf (fd_fid d) fs /\
+   forall key cn gf g fl pos, In (GW (fd_fid d) key cn gf g fl pos) W -> raw_codec cn = true).
+
+(* T.GobEncode then T.GobDecode: a property comes back with the same normal form *)
+Lemma field_rt_gen d out :
+  In d L -> fhyps d -> ihyps d -> gunmap_gen dec R mm init = Ok out -> ON out (fd_fid d) = ON fs (fd_fid d).
+Proof.
+  intros Hd Hfh Hih Hun.
+  destruct (field_parts d Hd) as (_ & _ & _ & Hcount & Hcross).
+  set (f := fd_fid d) in *.
+  unfold gunmap_gen in Hun.
+  destruct (fold_read_one dec _ f R init out Hcount Hun) as (key & cn & pos & Hin & Hm).
+  unfold cross_ok_gen in Hcross. rewrite forallb_forall in Hcross. pose proof (Hcross _ Hin) as Hc. simpl in Hc.
   unfold f in Hc at 1. rewrite fid_beq_refl in Hc.
   destruct (rcodec_of cn) as [cr|] eqn:Hcr; [|discriminate]. rewrite forallb_forall in Hc.
-  unfold ON, onorm.
-  destruct (aget key (fst (gmap E W (pre_fields E fs)))) as [raw|] eqn:Hraw.
+  destruct (aget key mm) as [raw|] eqn:Hraw.
   - destruct Hm as (v & Hv & Hout).
-    destruct (fold_binding E (pre_fields E fs) W ([], false) key raw Hraw) as [Hb|Hb]; [discriminate|].
-    destruct Hb as (f' & cn' & c' & gf' & g' & flag' & pos' & Hin' & Hc' & Hweq & has' & Hg').
-    assert (f' = f) as ->.
-    { unfold r_keys_ok in Hrk. apply andb_true_iff in Hrk. destruct Hrk as [_ Hrk]. rewrite forallb_forall in Hrk.
-      specialize (Hrk _ Hin). rewrite forallb_forall in Hrk. specialize (Hrk _ Hin'). simpl in Hrk.
-      rewrite bytes_eqb_refl in Hrk. apply fid_beq_eq in Hrk. congruence. }
-    pose proof (Hc _ Hin') as Hp. simpl in Hp. unfold f in Hp at 1. rewrite fid_beq_refl in Hp.
-    rewrite Hc' in Hp. apply andb_true_iff in Hp. destruct Hp as [_ Hp]. rewrite Hep in Hp.
-    (* the write statement's own well-formedness *)
-    match goal with H : forallb (wentry_ok f t) W = true |- _ => rewrite forallb_forall in H; pose proof (H _ Hin') as Hwe end.
-    simpl in Hwe. unfold f in Hwe at 1. rewrite fid_beq_refl in Hwe. rewrite Hc' in Hwe.
-    apply andb_true_iff in Hwe. destruct Hwe as [Hwe _]. apply andb_true_iff in Hwe. destruct Hwe as [Hgf Hwe].
-    apply fid_beq_eq in Hgf. subst gf'. apply andb_true_iff in Hwe. destruct Hwe as [_ Hcg].
-    destruct (codec_pair_sound E rec t c' cr (getf f fs) (getf f [])) as (v' & Hv' & Hn'); auto.
-    + intros _ _ _. now left.
-    + intros Ht Hci. rewrite fget_pre in Hg'. subst t. rewrite Ht in *.
-      eapply items_guard_present; [|exact Hshape|exact Hg'].
-      unfold codec_guard_ok in Hcg. destruct c'; try congruence; destruct g'; try discriminate; auto.
-    + rewrite Hweq, fget_pre in Hv. rewrite Hv in Hv'. injection Hv' as <-.
-      rewrite Hout. destruct (fval_is_zero v) eqn:Hz; [rewrite (zero_norm_none E v Hz) in Hn'; exact Hn'|exact Hn'].
-  - rewrite Hm. simpl.
-    destruct (getf f fs) as [v|] eqn:Hget; [|reflexivity].
-    destruct (NV v) as [nv|] eqn:Hnv; [|reflexivity]. exfalso.
-    destruct (set_field_written fs d v Hd Hget (Hshape v eq_refl)) as (_ & key' & cn' & c' & gf' & g' & fl' & pos' & Hin' & _ & _ & Hk').
-    { fold t. congruence. }
-    pose proof (Hc _ Hin') as Hp. simpl in Hp. unfold f in Hp at 1. rewrite fid_beq_refl in Hp.
-    apply andb_true_iff in Hp. destruct Hp as [Hkey _]. apply bytes_eqb_eq in Hkey. subst key'. congruence.
+    destruct (read_decodes d key cn pos raw cr (getf f init) Hd Hfh Hin Hraw Hcr) as (_ & _ & v' & _ & Hv' & Hn').
+    { destruct Hih as [Hc1|[_ Hc2]]; [now left|now right]. }
+    rewrite Hv in Hv'. injection Hv' as <-.
+    unfold onorm at 1. rewrite Hout.
+    destruct (fval_is_zero v) eqn:Hz; [rewrite (zero_norm_none E v Hz) in Hn'; exact Hn'|exact Hn'].
+  - unfold onorm at 1. rewrite Hm.
+    destruct Hih as [Hc1|[Hc2 _]].
+    + fold f in Hc1. rewrite (cur_ok_norm _ Hc1). unfold onorm.
+      destruct (getf f fs) as [v|] eqn:Hget; [|reflexivity].
+      destruct (NV v) as [nv|] eqn:Hnv; [|reflexivity]. exfalso.
+      destruct Hfh as (Hsh & _ & _).
+      destruct (set_field_written_gen d v Hd Hget (Hsh v Hget)) as (_ & key' & cn' & c' & gf' & g' & fl' & pos' & Hin' & _ & _ & Hk'); [congruence|].
+      pose proof (Hc _ Hin') as Hp. simpl in Hp. unfold f in Hp at 1. rewrite fid_beq_refl in Hp.
+      apply andb_true_iff in Hp. destruct Hp as [Hkey _]. apply bytes_eqb_eq in Hkey. subst key'. congruence.
+    + fold f in Hc2. rewrite Hc2. reflexivity.
 Qed.
-End Kind.
 
-Lemma tables_consistent_kind E : gob_tables_consistent E = true -> forall k, kind_ok E k = true.
+(* the read statements all succeed on what the write statements wrote *)
+Lemma unmap_ok : (forall d, In d L -> fhyps d) -> exists out, gunmap_gen dec R mm init = Ok out.
 Proof.
-  unfold gob_tables_consistent. intros H k. rewrite forallb_forall in H. apply H.
-  destruct k; simpl; tauto.
+  intros Hall. unfold gunmap_gen. apply fold_read_ok.
+  intros f key cn pos raw c cur Hin Hraw Hc.
+  destruct struct_parts as (_ & _ & Hrr & _ & _ & _).
+  rewrite forallb_forall in Hrr. pose proof (Hrr _ Hin) as Hrec1. simpl in Hrec1.
+  apply andb_true_iff in Hrec1. destruct Hrec1 as [Hinl _].
+  destruct (in_fields_In f Hinl) as (d & Hd & Hdf). subst f.
+  destruct (read_decodes d key cn pos raw c None Hd (Hall d Hd) Hin Hraw Hc (or_introl (or_introl eq_refl))) as (t & cw & v' & Hp & Hv & _).
+  eapply Hindep; eauto.
 Qed.
+
+Hypothesis Hshape : forall d v, In d L -> getf (fd_fid d) fs = Some v -> shape_ok (fd_type d) v = true.
+Hypothesis Hrec : forall d v i, In d L -> getf (fd_fid d) fs = Some v -> In i (items_of v) -> rec_ok E rec i.
+Hypothesis Hstr : forall d key cn gf g fl pos cw s,
+  In d L -> In (GW (fd_fid d) key cn gf g fl pos) W -> wcodec_of cn = Some cw -> is_item_codec cw = true ->
+  getf (fd_fid d) fs = Some (FStr s) -> s = [] \/ iri_nilish s = false.
+Hypothesis Hinit : forall d, In d L -> ihyps d.
+
+Lemma all_fhyps d : In d L -> fhyps d.
+Proof.
+  intros Hd. repeat split.
+  - intros v. now apply Hshape.
+  - intros v i. now apply Hrec.
+  - intros key cn gf g fl pos cw s. now apply Hstr.
+Qed.
+
+Lemma nodata_unset d : In d L -> snd (gmap_gen enc W (pre_fields E fs)) = false -> ON fs (fd_fid d) = None.
+Proof. intros Hd. apply nodata_unset1; [exact Hd|]. intros v. now apply Hshape. Qed.
+
+(* the whole struct *)
+Lemma struct_rt :
+  exists out, gunmap_gen dec R mm init = Ok out /\ forall d, In d L -> ON out (fd_fid d) = ON fs (fd_fid d).
+Proof.
+  destruct (unmap_ok all_fhyps) as [out Hout]. exists out. split; [exact Hout|].
+  intros d Hd. apply field_rt_gen; auto using all_fhyps.
+Qed.
+End Struct.
